@@ -239,6 +239,10 @@ pub struct Variant {
     /// the author sheet is split over two `<style>` elements (second half at the end of the body)
     #[serde(default)]
     pub split: bool,
+    /// with `split`: the first `<style>` element is repeated, byte for byte, as a third one (its
+    /// rules re-assert themselves in source order after the second element's)
+    #[serde(default)]
+    pub repeat: bool,
 }
 
 pub const JUNK: &[&str] = &[
@@ -608,6 +612,6 @@ pub fn complex(ids: usize) -> BoxedStrategy<Complex> {
 
 pub fn variant() -> BoxedStrategy<Variant> {
     (0u8..4, any::<bool>(), 0u8..3, prop_oneof![2 => Just(vec![]), 1 => prop::collection::vec(any::<u8>(), 1..4)], any::<bool>(), any::<u8>(), prop_oneof![3 => Just(0u8), 1 => Just(1u8), 1 => Just(2u8), 1 => Just(3u8), 1 => Just(4u8)], prop::bool::weighted(0.2))
-        .prop_map(|(layout, upper, final_semi, junk, unknown_props, nth_style, place, split)| Variant { layout, upper, final_semi, junk, unknown_props, nth_style, place, split })
+        .prop_map(|(layout, upper, final_semi, junk, unknown_props, nth_style, place, split)| Variant { layout, upper, final_semi, junk, unknown_props, nth_style, place, split, repeat: false })
         .boxed()
 }
